@@ -4,11 +4,13 @@ import itertools
 
 PROPS = ['C06', 'C02', 'C08', 'C01']
 NAME = 'add_ids_duplicate_semantics'
-BOUND = ('all id sequences of length 0..4 over {None, 0, 1, -1, "", "0", "1", "a"} x existing id sets '
+BOUND = ('all id sequences of length 0..4 (0..5 in the thorough tier) over {None, 0, 1, -1, "", "0", "1", "a"} x existing id sets '
          '{{}, {0}, {1, "1"}, {""}} x strict on/off, for BatchRequest and BatchResponse (exhaustive)')
 
 
 def run():
+    import os
+    THOROUGH = os.environ.get('VERIF_TIER') == 'thorough'
     from pjrpc.common.v20 import BatchRequest, BatchResponse
     from pjrpc.common.exceptions import IdentityError
     from spec.prims import dup_in
@@ -19,7 +21,7 @@ def run():
     for cls in (BatchRequest, BatchResponse):
         for strict in (True, False):
             for existing in existing_sets:
-                for n in range(0, 5):
+                for n in range(0, 6 if THOROUGH else 5):
                     for ids in itertools.product(alphabet, repeat=n):
                         cases += 1
                         b = cls(strict=strict)
